@@ -171,7 +171,7 @@ __CPROVER_ensures(G.tn_destructs == 1 && G.tnd_calls == 1) /* the completed next
 void tu_stream_trigger_next_done(struct tu_stream* self)
 __CPROVER_requires(self == &STRM && G.me == P_T && ZERO && STRM.cleanupReady_ == G.other_arrived && STRM.cleanupOperation_ == (G.other_arrived ? &COP : CLEANUPOPERATION_INIT))
 __CPROVER_assigns(STRM, COP, G)
-__CPROVER_ensures(G.lin_count <= 1)
+__CPROVER_ensures(G.lin_count <= 1 && (G.lin_count == 1 || I_AM_SECOND)) /* the call always arrives: it sets the flag or found it set */
 __CPROVER_ensures((G.tc_starts == 1) == I_AM_SECOND)                 /* starts the trigger's cleanup iff cleanup start() had arrived before it: exactly the second one acts */
 __CPROVER_ensures(G.lin_count == 1 ==> G.stop_requests == 1)         /* trigger fired before cleanup: the source's next() is told to stop */
 __CPROVER_ensures(G.finals == 0 && UNTOUCHED_IF_DEAD)
@@ -184,7 +184,7 @@ __CPROVER_requires(G.opstate[OP_source] == OPS_NONE && G.opstate[OP_trigger] == 
 __CPROVER_assigns(STRM, COP, G)
 __CPROVER_ensures(G.op_starts + G.joins == 1)                        /* the source's cleanup is started, or its failure enters the join as an error: exactly one */
 __CPROVER_ensures(G.joins == 1 ==> G.join_kind == J_source_cleanup_error)
-__CPROVER_ensures(G.lin_count <= 1)
+__CPROVER_ensures(G.lin_count <= 1 && (G.lin_count == 1 || I_AM_SECOND)) /* the call always arrives: it sets the flag or found it set */
 __CPROVER_ensures((G.tc_starts == 1) == I_AM_SECOND)                 /* starts the trigger's cleanup iff the trigger's next() had completed before: exactly the second one acts */
 __CPROVER_ensures(G.lin_count == 1 ==> G.stop_requests == 1)         /* cleanup before the trigger fired: the trigger is told to stop */
 __CPROVER_ensures(G.finals == 0 && UNTOUCHED_IF_DEAD)
@@ -200,7 +200,7 @@ __CPROVER_ensures(G.op_starts == 1 ==> G.opstate[OP_trigger] == OPS_STARTED)
 
 /* the four joins.  A = source side, B = trigger side */
 #define JOIN_REQ(who) (self == &COP && G.me == (who) && ZERO && COP.cleanupCompleted_ == G.other_arrived)
-#define JOIN_ENS ((G.finals == 1) == I_AM_SECOND && G.lin_count <= 1 && G.tc_starts == 0 && UNTOUCHED_IF_DEAD)
+#define JOIN_ENS ((G.finals == 1) == I_AM_SECOND && (G.lin_count == 1 || I_AM_SECOND) /* the completion always arrives: sets the flag or found it set */ && G.lin_count <= 1 && G.tc_starts == 0 && UNTOUCHED_IF_DEAD)
 void tu_cleanup_op_source_cleanup_done(struct tu_cleanup_op* self)
 __CPROVER_requires(JOIN_REQ(P_A) && COP.sourceError_ == 0 && (G.other_arrived || COP.triggerError_ == 0))
 __CPROVER_assigns(STRM, COP, G)
